@@ -32,6 +32,8 @@ def correspondence(ctx):
         n = rng.randint(3, 18)
         seq = hard.rand_seq(rng, n)
         d = bspec.rand_spec_desc(rng, seq, HARD_KINDS + ["change_min", "keep_edits"])
+        if d["kind"] == "cds" and rng.random() < 0.35:
+            seq = hard.plant_coding_region(rng, seq, d)
         try:
             spec, stub = bspec.init_spec(d, seq)
         except Exception as e:
@@ -117,6 +119,17 @@ def oracle_problem(rng, out):
     import dnachisel as dc
     import numpy as np
     seq, descs = hard.rand_problem(rng, nmin=3, nmax=7, kmax=3, kinds=HARD_KINDS)
+    if rng.random() < 0.15:
+        # a two-codon gene of a non-Standard genetic table that starts with one of the table's start codons and whose
+        # translation is read from the sequence
+        table = rng.choice(hard.TABLES[1:])
+        starts = hard.table_specific_codons(table)[1]
+        d = dict(kind="cds", location=[0, 6, rng.choice([1, 1, -1])], table=table, translation=None,
+                 start_codon=rng.choice(["keep", rng.choice(starts), sorted(rng.sample(starts, min(2, len(starts))))]))
+        if rng.random() < 0.5:
+            d["location"] = [1, 7, d["location"][2]]
+        seq = hard.plant_coding_region(rng, hard.rand_seq(rng, 7), d)
+        descs = [d] + descs[:1]
     if not wellformed(descs, seq):
         return 0
     try:
